@@ -4,6 +4,7 @@ package main
 // role-based anchor resolution helpers shared by all rules.
 
 import (
+	"regexp"
 	"bytes"
 	"fmt"
 	"go/ast"
@@ -561,4 +562,42 @@ func lessForm(b *ast.BinaryExpr) (token.Token, ast.Expr, ast.Expr) {
 		return token.LEQ, b.Y, b.X
 	}
 	return b.Op, b.X, b.Y
+}
+
+// paramOfType returns the function's only parameter whose type prints as t
+// (unqualified), e.g. "string" or "*SymbolTable"; nil if none or several.
+func paramOfType(p pkgT, fd *ast.FuncDecl, t string) types.Object {
+	var found types.Object
+	n := 0
+	for _, f := range fd.Type.Params.List {
+		for _, nm := range f.Names {
+			o := p.TypesInfo.Defs[nm]
+			if o != nil && types.TypeString(o.Type(), func(*types.Package) string { return "" }) == t {
+				found = o
+				n++
+			}
+		}
+	}
+	if n != 1 {
+		return nil
+	}
+	return found
+}
+
+// isObj: e is an identifier denoting o.
+func isObj(p pkgT, e ast.Expr, o types.Object) bool {
+	id, ok := ast.Unparen(e).(*ast.Ident)
+	return ok && o != nil && p.TypesInfo.ObjectOf(id) == o
+}
+
+// SrcRecv prints a node with the enclosing method's receiver spelled "recv",
+// so that a pattern like `recv.ch=='/'` does not depend on the receiver's name.
+func (w *World) SrcRecv(fd *ast.FuncDecl, n ast.Node) string {
+	s := strings.ReplaceAll(w.Src(n), " ", "")
+	if fd == nil || fd.Recv == nil || len(fd.Recv.List) != 1 || len(fd.Recv.List[0].Names) != 1 {
+		return s
+	}
+	name := fd.Recv.List[0].Names[0].Name
+	re := regexp.MustCompile(`\b` + regexp.QuoteMeta(name) + `\.`)
+	return re.ReplaceAllString(s, "recv.")
 }
